@@ -542,3 +542,47 @@ PROPS["C20"] = {
     "assumptions": ["inputs are finite (no NaN, no infinity); results are finite up to overflow/underflow of binary64, which exact arithmetic does not exhibit",
                     "EvenWalkIterator::next: max_error > 0 or distance != 0 (established by the constructor and kept by the repaired vary_by: both proved)"],
 }
+
+PROPS["C02"] = {
+    "title": "Curve-curve intersection is sound and complete in either argument order",
+    "gen_modules": ["Consts", "Basis", "Section", "Bounds", "CurveBounds", "Lines", "FatLine", "CurveClip"],
+    "corr_n": (20000, 200000),
+    "search_n": (3000, 60000),
+    "extended_factor": 2,
+    "technique": "Lean 4 theorems about curve_intersects_curve_clip_inner, join_subsections, curve_hull_length_sq, fast_bounding_box and clip translated WHOLE from curve_curve_clip.rs on every run "
+                 "(the function's recursion is open: its two calls to itself are a parameter, Model/CurveClip.lean ties the knot with a depth; overlapping_region and intersections_with_linear_section, "
+                 "which end in the external roots crate, are parameters) + bit-exact Float mirror of the whole recursion against the real function + independent crossing oracle on the real code",
+    "level_text": "Partial. Proved for all pairs of cubics, all accuracies, all recursion depths and ANY pair of callee functions, over any ordered field (sqrt arbitrary): "
+                  "(1) clip_never_loses: one clip step keeps every true intersection EXACTLY (C13 had a 1e-5 slack; snapping can only produce the ranges [0,0] and [1,1], which clip widens by 0.005); "
+                  "(2) results_have_origin: every returned pair is the mid-parameter pair of two sections of [0,1] that passed the convergence test with overlapping boxes, or an overlap-shortcut answer, or a "
+                  "linear-fall-back answer mapped through t_for_t - nothing else; (3) returned_parameters_in_range: all returned parameters lie in [0,1] if the callees' do; "
+                  "(4) converged_pair_close: a pair from the loop's own exit has its two points within sqrt(12)*accuracy (0.035 for 0.01) unless a final section is is_tiny; "
+                  "convergence_test_tiny_counterexample: for is_tiny sections (parameter length < 0.001, hull length defined as 0) the test passes with the two points 0.19 apart, curves inside the 100x100 box; "
+                  "(5) search_complete: the overlap shortcut fired (once, on the whole curves), or a true intersection (s1,s2) is COVERED by a returned pair (mid-parameters of final sections containing s1 and "
+                  "s2; covered_pair_near_intersection: within sqrt(3)*accuracy on either curve), or it is lost in one of the NAMED ways of LostCall/LostLoop, which follow the actual execution: recursion depth "
+                  "exhausted, a section of hull length 0 at entry of a call, loop fuel exhausted, linear fall-back taken, a clip against a section whose end points are within 1e-7, join_subsections dropped the covering hit; no clip step and no "
+                  "split loses it, and the two remaining `return smallvec![]` of the loop (clip answered None; final boxes do not overlap) are proved never to lose one "
+                  "(return_on_clip_none_justified, return_on_box_reject_justified); (6) join_keeps_or_close: join_subsections only ever drops the first hit of the right list, and only if its point on the "
+                  "first curve is within sqrt(2)*accuracy (0.0142 for 0.01, not 1 unit) of the kept last hit of the left list and their section parameters differ by < 0.1; join_invents_nothing; "
+                  "(7) recursion_bounded / recursion_depth_irrelevant: the recursion is at most 20 deep (every split halves a section of parameter length >= 0.001, clipping never lengthens one), so the depth "
+                  "parameter of the model is irrelevant from 21 on. "
+                  "The generated function reproduces curve_intersects_curve_clip bit for bit at Float (every returned pair, both accuracies, all input classes). "
+                  "NOT proved: that the answers of the linear fall-back and of the overlap shortcut are right (external cubic solver; in practice every transversal crossing is reported through the fall-back - the loop's "
+                  "own exit is taken in 20 of 200 000 correspondence cases, all of them overlapping pieces of one curve), termination, and therefore completeness and argument-order symmetry as such: these are decided on the real code by the search "
+                  "(hull-subdivision + Newton oracle, both orders, accuracies 0.01 and 0.001), which also follows every required crossing through a shadow of the recursion and reports the named step that lost it.",
+    "level_note": "Exact arithmetic (binary64 rounding bounded by the bit-exact mirror only). Repaired defect (bf6845a, hooks/fix_overlap_shortcut.diff): the overlap shortcut used to run in every recursive "
+                  "call and misfired on sections that share an end point with the other curve, losing a second crossing in the same sections (about 1 required crossing in 2000): found by the search, located by "
+                  "the named exits of search_complete; the theorems are about the repaired code, where the shortcut is outside the recursion. " + COMMON_NOTE,
+    "rule": "pairs of cubics with control points in a 100x100 box: general position, near-linear, S-shaped, looped, sharing an end point, one a piece of a longer curve cut at / near a crossing; corr adds "
+            "overlapping pieces of one curve, straight lines, a curve against itself, grid-snapped control points; accuracies 0.01 and 0.001, both argument orders. corr: the whole generated recursion at Float "
+            "with the callees' answers taken from tables recorded by a shadow of the wrapper and the private inner function (built from public items and hook H1; its result must equal the real result bit for bit) - every "
+            "returned pair bit-equal, a section pair missing from the tables shows up as NaN. search: every returned pair has parameters in [0,1] and points within 0.1; every transversal crossing of the "
+            "oracle (sin > 0.05, not within 2% of an end, not within 1 unit of another crossing) is matched within 0.1 in both orders; each required crossing is followed through the shadow recursion: a clip "
+            "step, None answer or box test that drops it contradicts the theorems and is a failure by itself. Non-trivial: the curves cross (search) / more than one loop iteration (corr); distinct by input.",
+    "trusted_base": ["overlapping_region and intersections_with_linear_section (roots crate) are parameters of the theorems: their answers are not verified, only their use",
+                     "hook H1 (FatLine) for the harness' shadow of the private inner function; the shadow only supplies the callees' answers and the diagnosis of lost crossings",
+                     "Model/CurveClip.lean: three lines tying the recursion knot (depth parameter); Lemmas/CurveClip.inner_eq identifies the generated term with the compact form by rfl"],
+    "assumptions": ["exact arithmetic in the theorems; sentinels 1 <= f64::MAX, f64::MIN <= 0",
+                    "loop fuel is a parameter of the model (100000 iterations per call in the generated function; termination of the loop is not proved); the recursion depth parameter is proved "
+                    "irrelevant from 21 on (the mirror runs with 200)"],
+}
